@@ -20,9 +20,7 @@ func genC13(r *rt.Rand, tier string, idx int) *world.Scenario {
 	case x == 0:
 		sc.Engine = "badger"
 	case x <= 2:
-		// the TiKV mock cluster cannot be split into real regions here: its KvScan handler
-		// panics on the unbounded reverse scans the backend's point reads issue in any region
-		// but the first ("KvScan: startKey not in region"); the seam supplies the borders instead
+		// single-region TiKV mock, borders from the seam (real regions: class tikv-real-regions below)
 		sc.Engine = "tikv"
 	}
 	keys := []string{prefix + "/a", prefix + "/a/b", prefix + "/a-b", prefix + "/ab", prefix + "/b", prefix + "/pods/ns/p1", prefix + "/pods/ns/p2", "/other/x"}
@@ -81,6 +79,11 @@ func genC13(r *rt.Rand, tier string, idx int) *world.Scenario {
 		sc.Parts = append(sc.Parts, hex.EncodeToString(b))
 	}
 	sc.Extra["parts_shuffle"] = int64(r.Intn(7))
+	if idx%6 == 4 {
+		// the borders become real regions of the TiKV mock cluster: the adapter's own GetPartitions runs
+		sc.Engine, sc.Class = "tikv", "tikv-real-regions"
+		sc.Extra["tikv_regions"] = 1
+	}
 	// reads
 	revs := func() world.Rev {
 		switch r.Intn(3) {
